@@ -1382,6 +1382,7 @@ func runC04(c *core.Ctx) core.Meta {
 	checkSOP2Operands(c, t)
 	checkDSDestinationPrinted(c, t)
 	checkEveryRowPrints(c, t)
+	checkVOPCDestinationText(c, t)
 	checkModifierFlags(c)
 	checkOperandsFresh(c)
 	checkOpcodeOperandsPrinted(c)
